@@ -407,6 +407,37 @@ public:
     void wait() {}
 };
 
+// ---------------------------------------------------------------- partitioners, imperative parallel_reduce
+// Partitioner arguments are accepted and ignored (the explorer owns the partition). The imperative form of parallel_reduce
+// (a body object with a splitting constructor and join) runs on one body, or - one ORDER deviation - splits once at a
+// chosen point, runs the right half on a split-constructed body and joins.
+struct split {};
+class auto_partitioner {}; class simple_partitioner {}; class static_partitioner {}; class affinity_partitioner {};
+template<class Range, class Body, class Part> void parallel_for(const Range &range, const Body &body, const Part &) { parallel_for(range, body); }
+template<class Range, class Body, class Part> void parallel_for(const Range &range, const Body &body, Part &) { parallel_for(range, body); }
+template<class Range, class Value, class Func, class Reduction, class Part>
+Value parallel_reduce(const Range &range, const Value &identity, const Func &body, const Reduction &join, const Part &) { return parallel_reduce(range, identity, body, join); }
+template<class Range, class Body>
+auto parallel_reduce(const Range &range, Body &body) -> decltype(body.join(body), void()) {
+    using namespace vtbb_detail;
+    std::size_t N = length(range);
+    if (N == 0) return;
+#ifndef VTBB_THREADS
+    int cutp = (N >= 2 && N > (std::size_t) range.grainsize()) ? vx::choose((int) N, vx::ORDER) : 0;
+#else
+    int cutp = (N >= 2 && N > (std::size_t) range.grainsize()) ? (int) (N / 2) : 0;
+#endif
+    if (cutp == 0) { body(range); return; }
+    Body right(body, split());
+#ifdef VTBB_THREADS
+    std::thread t([&]() { right(subrange(range, (std::size_t) cutp, N)); }); body(subrange(range, 0, (std::size_t) cutp)); t.join();
+#else
+    if (vx::choose(2, vx::ORDER) == 0) { body(subrange(range, 0, (std::size_t) cutp)); right(subrange(range, (std::size_t) cutp, N)); }
+    else { right(subrange(range, (std::size_t) cutp, N)); body(subrange(range, 0, (std::size_t) cutp)); }
+#endif
+    body.join(right);
+}
+
 // ---------------------------------------------------------------- facilities parmcb does not use today
 // A change that starts using one of them must still build and run on the shim (otherwise the schedule checks would end as
 // harness errors). They get the simplest LEGAL semantics - the ones a single worker produces - plus an order choice where the
